@@ -245,6 +245,7 @@ def typed(n):
     amount.unit = 'kg'
     count = Count(7)
     count.source = 'sensor'
+    huge = 10 ** 5000
     return n  # TP:typed
 '''
 
@@ -281,6 +282,12 @@ def typed_objects_leg(c, wd):
                 if attr is None and not kids:
                     bad = 'local %s (an enum member) shows no attributes at all' % name
                     break
+            # a number with more digits than the interpreter converts to decimal text by default (str() raises for it):
+            # still a number whose VALUE is shown - in decimal or in hexadecimal, cut to the string limit
+            v = by.get('huge')
+            if not bad and (v is None or v.type != 'int' or not v.value
+                            or not (('1' + '0' * 5000).startswith(v.value) or hex(10 ** 5000).startswith(v.value))):
+                bad = 'local huge (10 ** 5000) shows %s: not its value' % ((v.type, v.value[:60]) if v else None,)
         c.traces_validated += 1
         c.note_case(key=('typed-objects',), nontrivial=True)
         if bad:
